@@ -199,4 +199,72 @@ Proof.
   - split; [intros [m Hm]; discriminate|intros Hn; contradiction].
   - destruct H.
 Qed.
+
+(** * the flagged declarations cut every cycle *)
+Lemma round_marks g comps : forall inb marks inb' marks',
+  round g comps inb marks = inl (inb', marks') ->
+  (forall n, In n marks -> In n marks') /\
+  (forall c n, In c comps -> trivial g c = false -> In n c -> referential n = true -> In n marks').
+Proof.
+  induction comps as [|c cs IH]; intros inb marks inb' marks' H; cbn [Cycles.round] in H.
+  - inversion H; subst. split; [auto|]. intros c n [].
+  - destruct (trivial g c) eqn:Et.
+    + destruct (IH _ _ _ _ H) as [A B]. split; [exact A|].
+      intros c' n [<-|Hc'] Ht Hn Hr; [congruence|eapply B; eassumption].
+    + destruct (inb ++ flat_map (incoming g) (filter referential c)) as [|e0 rest]; [discriminate|].
+      destruct (IH _ _ _ _ H) as [A B]. split.
+      * intros n Hn. apply A. apply in_or_app. left. exact Hn.
+      * intros c' n [<-|Hc'] Ht Hn Hr; [|eapply B; eassumption].
+        apply A. apply in_or_app. right. apply filter_In. split; assumption.
+Qed.
+
+Lemma walk_sub g g' : (forall e, In e g' -> In e g) -> forall a b, walk g' a b -> walk g a b.
+Proof. intros H a b W. induction W; [apply walk_one|eapply walk_cons]; eauto. Qed.
+
+(** every referential declaration that lies on a cycle is flagged, and flags are never withdrawn *)
+Theorem marks_cover : forall fuel ns g marks marks',
+  cycles_check fuel ns g marks = COk marks' ->
+  (forall n, In n marks -> In n marks') /\
+  (forall n, walk g n n -> referential n = true -> In n marks').
+Proof.
+  induction fuel as [|fuel IH]; intros ns g marks marks' H; [discriminate|].
+  cbn [Cycles.cycles_check] in H.
+  destruct (Hscc ns g) as (_ & _ & Hon).
+  destruct (round g (scc ns g) [] marks) as [[inb m1]|n] eqn:Hr; [|discriminate].
+  destruct (round_marks _ _ _ _ _ _ Hr) as [A B].
+  assert (Hcov : forall n, walk g n n -> referential n = true -> In n m1).
+  { intros n W Hn. destruct (Hon n W) as (c & Hc & Ht & Hin). eapply B; eassumption. }
+  destruct inb as [|e0 rest].
+  - inversion H; subst. split; [exact A|exact Hcov].
+  - destruct (IH _ _ _ _ H) as [A' _]. split; [intros n Hn; apply A', A, Hn|]. intros n W Hn. apply A', Hcov; assumption.
+Qed.
+
+Lemma walk_trans g a b c : walk g a b -> walk g b c -> walk g a c.
+Proof. intros W1 W2. induction W1; [eapply walk_cons|eapply walk_cons]; eauto. Qed.
+
+(** every node on a closed walk lies on a cycle *)
+Lemma walkP_on_cycle (Q : N -> Prop) g a c : walkP Q g a c -> (c = a \/ walk g c a) ->
+  walkP (fun x => Q x /\ walk g x x) g a c.
+Proof.
+  intros W. induction W as [a b Hab Hb|a b c Hab Hb W IH]; intros Hclose.
+  - apply walkP_one; [exact Hab|]. split; [exact Hb|].
+    destruct Hclose as [->|Wc]; [apply walk_one, Hab|eapply walk_trans; [exact Wc|apply walk_one, Hab]].
+  - assert (Wbc : walk g b c) by (eapply walkP_walk, W).
+    assert (Wca : walk g c b).
+    { destruct Hclose as [->|Wc]; [apply walk_one, Hab|eapply walk_trans; [exact Wc|apply walk_one, Hab]]. }
+    eapply walkP_cons; [exact Hab| |apply IH; right; exact Wca].
+    split; [exact Hb|]. eapply walk_trans; eassumption.
+Qed.
+
+Theorem flagged_cut_every_cycle ns g marks' :
+  cycles_check (S (length g)) ns g [] = COk marks' ->
+  ~ exists n, walkP (fun x => ~ In x marks') g n n.
+Proof.
+  intros H [n W].
+  pose proof (cycles_check_spec (S (length g)) ns g [] ltac:(lia)) as Hs. rewrite H in Hs.
+  destruct (marks_cover _ _ _ _ _ H) as [_ Hcov].
+  apply Hs. exists n. eapply walkP_weaken; [|apply (walkP_on_cycle _ _ _ _ W); left; reflexivity].
+  intros x [Hx Wx]. unfold nonref. destruct (referential x) eqn:E; [|reflexivity]. exfalso. apply Hx, Hcov; assumption.
+Qed.
+
 End Proofs.
